@@ -157,7 +157,9 @@ fn run_one(kind: &str, sub: &str, n: usize, seed: u64, origin: u32, replay: Opti
             let nops = rng.range(1, n as u64 + 2) as usize;
             let ops: Vec<Op> = (0..nops).map(|i| {
                 let v = (p as u32 + 1) * 1000 + i as u32;
-                if kind == "atomic" && rng.chance(1, 4) { Op::RsvPub(v) } else { Op::Send(v) }
+                // index-based publication re-guesses the lap from the absolute counters: its *step count* (not its result)
+                // depends on the origin, so the step-level comparison with the origin-free model is done at origin 0 only
+                if kind == "atomic" && origin == 0 && rng.chance(1, 4) { Op::RsvPub(v) } else { Op::Send(v) }
             }).collect();
             let (q, evs, done) = (q.clone(), evs.clone(), done.clone());
             bodies.push(Box::new(move |ctx| {
@@ -196,8 +198,10 @@ fn run_one(kind: &str, sub: &str, n: usize, seed: u64, origin: u32, replay: Opti
         }
     } else {
         // sub == "rsv": one producer-side thread, history of reservation operations
-        let nc = rng.range(1, 2) as usize;
-        let hist_len = rng.range(3, 14) as usize;
+        let nc = if sub == "seq" { 0 } else { rng.range(1, 2) as usize };
+        let hist_len = rng.range(3, 14) as usize + if sub == "seq" { 6 } else { 0 };
+        let inline_recv = sub == "seq";
+        let atomic_kind = kind == "atomic";
         cfgkey += &format!("/c{nc}h{}", hist_len / 4);
         let mut hrng = Rng::new(seed ^ 0x5151);
         {
@@ -208,7 +212,8 @@ fn run_one(kind: &str, sub: &str, n: usize, seed: u64, origin: u32, replay: Opti
                 let mut next_l = 10usize;
                 let mut next_v = 1000u32;
                 for _ in 0..hist_len {
-                    match hrng.below(6) {
+                    if inline_recv && hrng.chance(1, 3) { do_recv(ctx, &*q, &evs, 1); if hrng.chance(1, 2) { do_len(ctx, &*q, &evs, 1); } continue }
+                    match if atomic_kind { hrng.below(6) } else { 5 } {
                         0 | 1 => {
                             let l = next_l; next_l += 1;
                             if let Some(idx) = do_reserve(ctx, &*q, &evs, l) { stack.push((l, idx, 0)); }
@@ -352,10 +357,44 @@ fn main() {
     let mut out = TraceOut::new(&a.get("trace", ""));
     let mut rep = Report::new(&format!("ring/{kind}/{sub}"));
     let single = a.kv.get("choices").map(|c| parse_choices(c));
+    if sub == "diff" {
+        // C15: the same sequential history (send / receive / reserve / fill / publish-by-index / cancel-by-index / length)
+        // replayed from every origin must answer exactly as from origin 0
+        for i in 0..runs {
+            let seed = if a.kv.contains_key("seedx") { a.num("seedx", 0) } else { seed0.wrapping_mul(1_000_003).wrapping_add(i) };
+            let n = ns[(i as usize) % ns.len()];
+            let base = run_one(&kind, "seq", n, seed, 0, None, false);
+            let rets = |r: &RunOut| -> Vec<String> { r.outcome.trace.iter().filter(|l| l.starts_with("ret ") || l.starts_with("panic ") || l.starts_with("refill ")).cloned().collect() };
+            let b = rets(&base);
+            let mut all = base.outcome.trace.clone();
+            let mut viol = oracle(n, &base);
+            for &o in origins.iter().filter(|o| **o != 0) {
+                let o = o - (o % n as u32);
+                let r = run_one(&kind, "seq", n, seed, o, None, false);
+                let x = rets(&r);
+                if x != b {
+                    let k = (0..b.len().min(x.len())).find(|&k| b[k] != x[k]).unwrap_or(b.len().min(x.len()));
+                    viol.push(("origin_dependent".into(), format!("history answers differently from sequence origin {o} than from origin 0: result #{k} is `{}` vs `{}` (N={n}, {} results)", x.get(k).cloned().unwrap_or("<missing>".into()), b.get(k).cloned().unwrap_or("<missing>".into()), b.len())));
+                    all.push(format!("--- origin {o} ---")); all.extend(r.outcome.trace.clone());
+                }
+                for (k, d) in oracle(n, &r) { viol.push((k, format!("(origin {o}) {d}"))); }
+            }
+            let nontrivial = b.iter().any(|l| l.contains("pubidx") || l.contains("canidx"));
+            rep.add_run(&base.outcome.trace, nontrivial, &format!("{kind}/diff/N{n}"), "Completed");
+            for (k, d) in viol {
+                let header = vec![format!("cmd ring kind={kind} sub=diff n={n} origins={} runs=1 seedx={seed}", a.get("origins", "0")), format!("violation {k}: {d}")];
+                let path = write_replay(&replay_dir, &format!("{pid}-{kind}-diff-seed{seed}-{k}"), &header, &all);
+                rep.violations.push(Violation { run: i, seed, kind: k, detail: d, replay: path });
+            }
+        }
+        rep.print();
+        return
+    }
     for i in 0..runs {
-        let seed = seed0.wrapping_mul(1_000_003).wrapping_add(i);
+        let seed = if a.kv.contains_key("seedx") { a.num("seedx", 0) } else { seed0.wrapping_mul(1_000_003).wrapping_add(i) };
         let n = ns[(i as usize) % ns.len()];
         let origin = origins[(i as usize / ns.len()) % origins.len()];
+        let origin = origin - (origin % n as u32);
         let pct = a.num("pct", 0) == 1 || (a.num("pct", 0) == 2 && i % 2 == 1);
         let r = run_one(&kind, &sub, n, seed, origin, single.clone(), pct);
         let model = if kind == "atomic" { "ring" } else { "lockring" };
@@ -371,7 +410,7 @@ fn main() {
         let nontrivial = trace.iter().any(|l| l.contains(" am.p.recede ") || l.contains(" am.c.recede ") || l.contains(" sync.spin ") || l.starts_with("ret") && (l.ends_with(" full") || l.ends_with(" empty")));
         let verdict = format!("{:?}", r.outcome.verdict);
         rep.add_run(&trace, nontrivial, &r.cfgkey, &verdict);
-        out.write_run(&cfg, &trace);
+        if origin == 0 || sub == "mixed" { out.write_run(&cfg, &trace); }
         for (k, d) in viol {
             let name = format!("{pid}-{kind}-{sub}-seed{seed}-{k}");
             let header = vec![
